@@ -286,7 +286,11 @@ def run(ctx):
     n, scopes, hist = function_level(ctx, rep)
     n += poll_set_level(ctx, rep)
     stats = run_level(ctx, rep)
+    # ONE WHOLE CALL of optimize() (Opt.init + Full.step + Opt.finish, the model of Props/C14Opt.lean): the points each search / poll step evaluates are
+    # DERIVED by the model from the candidate sets and the acquisition picks, and compared with the run per iteration (runs with plain options)
+    wstats = runlevel.whole_replay(ctx, rep, plain_only=True)
     rep.coverage = {
+        "whole_run_model": wstats,
         "evaluations": n + stats["polls"], "distinct_nontrivial": n,
         "rule": "function level: poll_mads_2n under a scripted random source - every outcome (strictly-lower fill x signs x permutation) for the scopes listed in 'exhaustive_scopes', sampled for the others "
                 "(D<=6, mesh ratios 1,2,4), random poll_scale; all cases are distinct outcomes; run level: every poll step of the traced runs (basis predicates, polled points = incumbent + mesh*direction, each direction once, <= 2D)",
